@@ -14,7 +14,7 @@ use vpmodel::spec::ChainSpec;
 pub const DEF: PropDef = PropDef {
     id: "C01",
     level: "exploration",
-    rule: "generated chains (8 coins, 1..6 blocks, tx/input/output counts and script/witness lengths drawn from CompactSize boundary classes, legacy and BIP144 txs, arbitrary u32/u64 fields, --verify on/off, 15% into a dump folder that still holds longer stale *.csv.tmp files) written as a data directory, plus one fixed chain with a transaction of 0x10001 inputs and 66 000 outputs; csvdump output compared byte-for-byte with the reference rendering. Non-trivial = >=2 blocks and (a count or length equal to 0xfc/0xfd/0xffff/0x10000, or a segwit tx, or a tx with >=2 inputs and >=2 outputs); distinct by hash of the case.",
+    rule: "generated chains (8 coins, 1..6 blocks, tx/input/output counts and script/witness lengths drawn from CompactSize boundary classes, legacy and BIP144 txs, arbitrary u32/u64 fields, --verify on/off, 15% into a dump folder that still holds longer stale *.csv.tmp files) written as a data directory, plus one fixed chain with a transaction of 0x10001 inputs and 66 000 outputs; csvdump output compared byte-for-byte with the reference rendering. Non-trivial = >=2 blocks and (a count or length equal to 0xfc/0xfd/0xffff/0x10000, or a segwit tx, or a tx with >=2 inputs and >=2 outputs); distinct by hash of the case. Chains may repeat an earlier coinbase or transaction verbatim (same txid twice).",
     assumptions: &["canonical CompactSize encodings only (non-canonical ones cannot occur in accepted blocks)", "SHA-256 compression function of bitcoin_hashes is shared with the tool (cross-checked against fixed vectors at start-up)", "single-file layout (layouts are C03's subject)"],
     run,
     replay,
@@ -36,6 +36,8 @@ pub fn strategy(tier: Tier) -> BS<Case> {
     // null outpoints (coinbase-shaped inputs) in any position of multi-input transactions
     cfg.tx.src = prop_oneof![8 => gen::default_src(), 1 => Just(vpmodel::spec::Src::Null)].boxed();
     cfg.nblocks = (1usize..=6).boxed();
+    // byte-identical coinbases / transactions in different blocks (same txid twice: BIP30 history) still are one row each
+    cfg.dup_coinbase = true;
     cfg.ntx = prop_oneof![6 => 0usize..4, 2 => 4usize..12, 1 => Just(0xfbusize), 1 => Just(0xfcusize), 1 => Just(0xfdusize)].boxed();
     // a script's length class is drawn per output: add the raw length classes explicitly
     cfg.tx.script = prop_oneof![6 => gen::ordinary_script(tier), 2 => gen::raw_script(tier)].boxed();
